@@ -3,12 +3,22 @@ package rules
 import (
 	"go/constant"
 	"go/token"
+	"go/types"
 	"strings"
 
 	. "abverif/internal/engine"
 
 	"golang.org/x/tools/go/ssa"
 )
+
+// fieldNameOfField names the field a value-struct field selection reads.
+func fieldNameOfField(f *ssa.Field) string {
+	st := structOf(f.X.Type())
+	if st == nil || f.Field >= st.NumFields() {
+		return ""
+	}
+	return st.Field(f.Field).Name()
+}
 
 // loadsField reports whether v is a load of the named field.
 func loadsField(v ssa.Value, field string) bool { return fieldLoadName(v) == field }
@@ -110,10 +120,48 @@ func (c *Ctx) familyPairing() {
 			r.Bad("C11.every-call", n, "queues its event on every path", c.P.Pos(fn.Pos()), "a call can return without its event having been queued (a put/delete judged redundant is dropped): the store does not receive the sequence of changes the handlers made", c.P.DescribePath(p)...)
 		}
 	}
+	// the writer's two stores are the configured ones, each in its own slot:
+	// a store standing in for its sibling receives the other family's events
+	want := map[string]string{"cookieStateRW": "CookieState", "sessionStateRW": "SessionState"}
+	nslots := 0
+	for _, fn := range c.P.Funcs {
+		for _, b := range fn.Blocks {
+			for _, in := range b.Instrs {
+				st, ok := in.(*ssa.Store)
+				if !ok {
+					continue
+				}
+				fa, ok := st.Addr.(*ssa.FieldAddr)
+				if !ok || want[fieldName(fa)] == "" || !strings.HasSuffix(fa.X.Type().String(), "ClientStateResponseWriter") {
+					continue
+				}
+				nslots++
+				var from func(v ssa.Value, d int) bool
+				from = func(v ssa.Value, d int) bool {
+					if phi, isPhi := v.(*ssa.Phi); isPhi && d < 4 {
+						for _, e := range phi.Edges {
+							if !from(e, d+1) {
+								return false
+							}
+						}
+						return true
+					}
+					return fieldLoadName(v) == want[fieldName(fa)]
+				}
+				r.Check(from(st.Val, 0), "C11.family", FuncName(fn), fieldName(fa)+" = Storage."+want[fieldName(fa)], posf(c, st), "the writer's "+fieldName(fa)+" is the configured "+want[fieldName(fa)], "the writer's "+fieldName(fa)+" can be something other than Config.Storage."+want[fieldName(fa)]+" ("+SafeString(st.Val)+"): that store is handed the events (and nil state) of the other family")
+			}
+		}
+	}
+	if nslots < 2 {
+		r.Unknown("C11.family", "ab", "writer store slots", "-", sprintf("expected the writer's two store fields to be initialised, found %d stores", nslots))
+	}
 	// setState: switch on ctxKey -> append to matching queue
 	ss := c.queueFunc()
+	if ss == nil {
+		r.Info("C11.family", "ab", "queue function", "-", "no single function appends to both queues (one per family): the pairing is decided per public wrapper below")
+	}
 	n := 0
-	for _, b := range ss.Blocks {
+	for _, b := range blocksOf(ss) {
 		for _, in := range b.Instrs {
 			st, ok := in.(*ssa.Store)
 			if !ok {
@@ -141,7 +189,9 @@ func (c *Ctx) familyPairing() {
 			r.Check(ok2, "C11.family", FuncName(ss), fld, posf(c, st), "appended under ctxKey=="+want, "events for key family "+want+" are not appended to "+fld+" under the matching context key")
 		}
 	}
-	r.Check(n == 2, "C11.family", FuncName(ss), "two queues", c.P.Pos(ss.Pos()), "both families handled", sprintf("expected 2 queue appends, found %d", n))
+	if ss != nil {
+		r.Check(n == 2, "C11.family", FuncName(ss), "two queues", c.P.Pos(ss.Pos()), "both families handled", sprintf("expected 2 queue appends, found %d", n))
+	}
 	// public wrappers: what each of them queues, summarised through whatever
 	// helpers lie between it and the queue (constant arguments are propagated
 	// into the helpers' guards, so the decomposition does not matter)
@@ -457,6 +507,119 @@ func (c *Ctx) flushDiscipline() {
 					r.Check(okNil, "C11.flush-err", name, "no write after failed flush", posf(c, u), "a failed flush stops the response", "the embedded writer is used although the flush failed")
 				}
 			}
+		}
+	}
+	// (1b) any other method of the writer that makes the embedded writer send
+	// (Flush, ReadFrom, WriteString: what net/http or io.Copy call when the
+	// wrapper offers them) is a first byte as well
+	committing := map[string]bool{"Write": true, "WriteHeader": true, "WriteString": true, "ReadFrom": true, "Flush": true, "FlushError": true}
+	var embedded func(v ssa.Value, d int) bool
+	embedded = func(v ssa.Value, d int) bool {
+		if d > 8 || v == nil {
+			return false
+		}
+		switch x := v.(type) {
+		case *ssa.TypeAssert:
+			return embedded(x.X, d+1)
+		case *ssa.Extract:
+			return embedded(x.Tuple, d+1)
+		case *ssa.ChangeInterface:
+			return embedded(x.X, d+1)
+		case *ssa.MakeInterface:
+			return embedded(x.X, d+1)
+		case *ssa.Phi:
+			for _, e := range x.Edges {
+				if embedded(e, d+1) {
+					return true
+				}
+			}
+			return false
+		case *ssa.Field:
+			return fieldNameOfField(x) == "ResponseWriter"
+		case *ssa.UnOp:
+			if fa, ok := x.X.(*ssa.FieldAddr); ok {
+				return fieldName(fa) == "ResponseWriter"
+			}
+		}
+		return false
+	}
+	for _, fn := range c.P.Funcs {
+		if fn.Signature.Recv() == nil || fn.Blocks == nil || fn == put || flushers[FuncName(fn)] {
+			continue
+		}
+		rt := fn.Signature.Recv().Type()
+		if pt, ok := rt.(*types.Pointer); ok {
+			rt = pt.Elem()
+		}
+		if nt, ok := rt.(*types.Named); !ok || nt.Obj().Name() != "ClientStateResponseWriter" || nt.Obj().Pkg() == nil || Short(nt.Obj().Pkg().Path()) != "ab" {
+			continue
+		}
+		name := FuncName(fn)
+		for _, call := range Calls(fn) {
+			cc := call.Common()
+			if !cc.IsInvoke() || !committing[cc.Method.Name()] || !embedded(cc.Value, 0) {
+				continue
+			}
+			at := call.(ssa.Instruction)
+			q := PathQuery{StartBlock: fn.Blocks[0], Cut: func(i ssa.Instruction) bool {
+				ci, ok := i.(ssa.CallInstruction)
+				return ok && StaticCallee(ci) == put
+			}, Goal: func(i ssa.Instruction) bool { return i == at }, PruneFact: func(f Fact) bool {
+				rel := f.Rel()
+				return rel.B != nil && rel.Pol && loadsField(rel.B, "hasWritten")
+			}}
+			if p := q.Find(); p != nil {
+				r.Bad("C11.flush-first", name, "underlying "+cc.Method.Name(), posf(c, call), "the embedded writer is made to send ("+cc.Method.Name()+") with hasWritten==false and without putClientState(): the header goes out before the queued session/cookie changes, which are then lost", c.P.DescribePath(p)...)
+			} else {
+				r.Ok("C11.flush-first", name, "underlying "+cc.Method.Name(), posf(c, call), "every path first flushes or has already flushed")
+			}
+		}
+	}
+	// (1c) a writer the library itself puts in front of the state writer (a
+	// wrapper with a ResponseWriter inside and its own Write) hands every write
+	// on: a body write it swallows is a first byte the state writer never sees
+	for _, fn := range c.P.Funcs {
+		if fn.Signature.Recv() == nil || fn.Blocks == nil || fn.Name() != "Write" || !c.inRepo(fn) || strings.HasSuffix(pkgOf(fn), "/mocks") {
+			continue
+		}
+		rt := fn.Signature.Recv().Type()
+		if pt, ok := rt.(*types.Pointer); ok {
+			rt = pt.Elem()
+		}
+		nt, ok := rt.(*types.Named)
+		if !ok || nt.Obj().Name() == "ClientStateResponseWriter" {
+			continue
+		}
+		st, ok := nt.Underlying().(*types.Struct)
+		if !ok {
+			continue
+		}
+		wraps := false
+		for i := 0; i < st.NumFields(); i++ {
+			if strings.HasSuffix(st.Field(i).Type().String(), "net/http.ResponseWriter") {
+				wraps = true
+			}
+		}
+		sig := fn.Signature
+		if !wraps || sig.Params().Len() != 1 || sig.Results().Len() != 2 {
+			continue
+		}
+		forwards := func(i ssa.Instruction) bool {
+			call, ok := i.(ssa.CallInstruction)
+			if !ok {
+				return false
+			}
+			switch Callee(call) {
+			case "(net/http.ResponseWriter).Write", "(net/http.ResponseWriter).WriteHeader", "(io.Writer).Write":
+				return true
+			}
+			return false
+		}
+		q := PathQuery{StartBlock: fn.Blocks[0], Cut: forwards, GoalP: c.nonErrorReturn}
+		if p := q.Find(); p != nil {
+			r.Bad("C11.flush-first", FuncName(fn), "wrapper forwards writes", c.P.Pos(fn.Pos()), "a response-writer wrapper of the library reports a body write done without handing it to the writer it wraps: behind it the client-state writer never sees a first byte, the implicit header goes out without the queued session/cookie changes", c.P.DescribePath(p)...)
+		} else {
+			r.Ok("C11.flush-first", FuncName(fn), "wrapper forwards writes", c.P.Pos(fn.Pos()), "every successful write reaches the wrapped writer")
 		}
 	}
 	// all other call sites of putClientState
@@ -783,4 +946,11 @@ func (c *Ctx) respondersWrite(rule string) {
 		}
 	}
 	r.Check(n >= 2, rule, "ab/defaults", "responders found", "-", sprintf("%d responder functions", n), sprintf("expected at least 2 responder functions in defaults, found %d", n))
+}
+
+func blocksOf(f *ssa.Function) []*ssa.BasicBlock {
+	if f == nil {
+		return nil
+	}
+	return f.Blocks
 }
